@@ -155,8 +155,8 @@ func genLen(r *hx.Rand) int {
 	case 1:
 		return 0xfc + r.Intn(6)
 	case 2:
-		if r.Chance(20) {
-			return []int{1023, 1024, 1025, 4096, 65535, 65536}[r.Intn(6)]
+		if r.Chance(5) {
+			return []int{1023, 1024, 1025}[r.Intn(3)]
 		}
 		return 1
 	default:
@@ -222,6 +222,9 @@ func cheap(r *hx.Rand, k int) interface{} {
 
 func bigList(r *hx.Rand, n int, nested int) interface{} {
 	k := r.Intn(4)
+	if n > 1200 {
+		k = 0 // keep the buffer short: the model driver's reads are linear in the offset
+	}
 	l := make([]interface{}, n)
 	for i := range l {
 		l[i] = cheap(r, k)
@@ -240,8 +243,11 @@ func bigList(r *hx.Rand, n int, nested int) interface{} {
 	return v
 }
 
+// generated lines stay near the threshold (the model driver reads through linked lists: cost grows with length²);
+// 1500 and 4096 are in the corpus
 func genBig(r *hx.Rand) interface{} {
-	return bigList(r, bigLens[r.Intn(len(bigLens))]+[]int{0, 0, 0, -1, 1}[r.Intn(5)]*r.Intn(2), r.Intn(3))
+	n := []int{1023, 1024, 1025, 1025, 1026, 1100}[r.Intn(6)]
+	return bigList(r, n, r.Intn(3))
 }
 
 func hasBig(v interface{}) bool {
@@ -267,7 +273,7 @@ func nest(depth int, inner []byte) []byte {
 }
 
 func genBytes(r *hx.Rand) []byte {
-	if r.Chance(2) { // long lists: valid, count off by one, truncated
+	if r.Chance(1) { // long lists: valid, count off by one, truncated
 		e, _ := codec.EncodeValue(genBig(r))
 		switch r.Intn(4) {
 		case 0:
@@ -376,7 +382,7 @@ func gen(r *hx.Rand, tier string, i int) string {
 	switch r.Intn(10) {
 	case 0, 1, 2:
 		var t []string
-		if r.Chance(3) {
+		if r.Chance(2) {
 			toks(genBig(r), &t)
 		} else {
 			toks(genVal(r, 5, r.Chance(80)), &t)
@@ -504,7 +510,11 @@ func exec(line string) hx.Result {
 		if err != nil {
 			res.Fail, res.Class = "own encoding rejected: "+errKind(err), "crossvm-roundtrip-rejected-"+kindOf(v)
 		} else if d := firstDiff(v, back); d != "" {
-			res.Fail, res.Class = "decodes to "+show(back), "crossvm-roundtrip-differs-at-"+d
+			sb := show(back)
+			if len(sb) > 200 {
+				sb = sb[:200] + "…"
+			}
+			res.Fail, res.Class = "decodes to "+sb, "crossvm-roundtrip-differs-at-"+d
 		} else if src.Len() != 0 {
 			res.Fail, res.Class = "encoding not fully consumed", "crossvm-roundtrip-leftover"
 		}
@@ -566,9 +576,11 @@ func bigCorpus() []string {
 	for i, n := range []int{1023, 1024, 1025, 1500, 4096} {
 		r := hx.NewRand(uint64(77 + i))
 		top, nested, deep := bigList(r, n, 0), bigList(r, n, 1), bigList(r, n, 2)
-		out = append(out, eLine(top), eLine(nested), eLine(deep), dLineOf(top), dLineOf(nested), dLineOf(deep))
-		e, _ := codec.EncodeValue(nested)
-		out = append(out, "C "+hx.Hex(append([]byte{0}, e...)), nLine(append([]byte("evt\x00"), e...)))
+		out = append(out, eLine(top), eLine(nested), dLineOf(top), dLineOf(nested))
+		if n <= 1025 {
+			e, _ := codec.EncodeValue(nested)
+			out = append(out, eLine(deep), dLineOf(deep), "C "+hx.Hex(append([]byte{0}, e...)), nLine(append([]byte("evt\x00"), e...)))
+		}
 	}
 	for _, n := range []int{1023, 1024, 1025, 4096, 65535, 65536} {
 		b := make([]byte, n)
@@ -595,7 +607,7 @@ func main() {
 			"E i:-170141183460469231731687303715884105728", "E i:-170141183460469231731687303715884105729", "E o:1 i:-1 L:2 i:340282366920938463463374607431768211456 L:2",
 			"C -", "C 00", "C 01", "C 000301", "C 010301", nLine([]byte("evt\x00\x03\x01")), nLine([]byte("evt\x01\x03\x01")), nLine([]byte("evt")),
 			nLine(append([]byte("evt\x00\x10\x02\x00\x00\x00\x02"), append(make([]byte, 20), 4, 0xff, 0xff, 0xff, 0xff, 0xff, 0xff, 0xff, 0xff, 0xff, 0xff, 0xff, 0xff, 0xff, 0xff, 0xff, 0xff)...)),
-		},
+		}...),
 		N: map[string]int{"quick": 20000, "thorough": 400000},
 	})
 }
